@@ -47,6 +47,10 @@ WHAT = {
                                              "controller passes) and never closes the stored host's removal latch",
     "removed-latch-not-closed/replaced-object": "established relays through an object that a later Add of its address displaced are not closed "
                                                 "when the address is removed",
+    "least-conn-not-minimal/after-failed-dials": "least-connection prefers the backend that really holds strictly more relays: the connection "
+                                                 "count of the other sample is inflated by dials that failed",
+    "conn-count-leak/failed-dial": "a failed dial to a selected host leaves its connection count (the input of least-connection) above the "
+                                   "number of relays that exist",
     "removed-latch-not-closed/client-half-closed": "an established relay whose CLIENT has shut down its write side (backend still sending) is not "
                                                    "closed when its host is removed",
     "removed-latch-not-closed/backend-half-closed": "an established relay whose BACKEND has shut down its write side (client still open) is not "
@@ -66,8 +70,8 @@ def mc(ctx, module, cfg, **kw):
     return ctx.mc("tcp", module, cfg, **kw)
 
 
-def emit(ctx, module, cfg, tag, mode="mc", **kw):
-    r = ctx.tlc("tcp", module, cfg, mode=mode, workers=1, deadlock=False, timeout=900,
+def emit(ctx, module, cfg, tag, mode="mc", workers=1, **kw):
+    r = ctx.tlc("tcp", module, cfg, mode=mode, workers=workers, deadlock=False, timeout=900,
                 extra_files=[HOSTSET, HOSTSETGEN], **kw)
     if r.timeout or (r.error and not r.prints):
         raise kit.Inconclusive("behaviour emission %s failed: %s" % (cfg, r.error[:500]))
@@ -112,6 +116,10 @@ def ops_of(path):
             out.append([op, s["id"]])
         elif op == "HalfClose":
             out.append([op, s["id"], {"chc": "client", "bhc": "backend"}.get(s["side"], s["side"])])
+        elif op == "Refuse":
+            out.append(["BackendRefuses" if s["refusing"] else "BackendAcceptsAgain", "addr%d" % s["a"]])
+        elif op == "CloseConn":
+            out.append([op, s["id"]])
         else:
             out.append([op])
     return out
@@ -159,7 +167,7 @@ def policy_replay(ctx, policy, variant, quick, found):
 
 def e2e(ctx, variant, found):
     t = ctx.thorough
-    nsim = 140 if t else 18
+    nsim = 140 if t else 14
     behs = []
     for k, policy in enumerate(("rr", "random", "lc")):
         bs = emit(ctx, "BalanceE2EGen", "Sim_BalanceE2E_%s_%s.cfg" % (policy, variant), "BEH", mode="sim",
@@ -199,6 +207,20 @@ def e2e(ctx, variant, found):
                 raise kit.Inconclusive("window %s is not reachable in BalanceE2EGen (%s, %s)" % (trap, policy, variant))
             behs += [{"policy": policy, "steps": b} for b in bs[:2]]
             directed += len(bs[:2])
+    # services without health check: backends that refuse connections while their host stays usable (dial failures),
+    # client closes, the random source of the processor's balancer scripted (every policy deterministic)
+    nn = 60 if t else 10
+    for k, policy in enumerate(("lc", "rr", "random") if t else ("lc",)):
+        bs = emit(ctx, "BalanceE2EGen", "Sim_BalanceE2E_nohc_%s_%s.cfg" % (policy, variant), "BEH", mode="sim",
+                  sim_num=nn, sim_depth=60, seed=ctx.seed * 7 + k)
+        behs += [{"policy": policy, "nohc": True, "steps": b} for b in bs]
+    # mandatory stratum: >= 2 failed dials to a host, the host accepts again, a least-connection pick whose samples are
+    # that host and a host with strictly more real relays
+    bs = emit(ctx, "BalanceE2EGen", "Trap_BalanceE2E_leak_%s.cfg" % variant, "TRAP", workers=4)
+    if not bs:
+        raise kit.Inconclusive("window 'least-connection after failed dials' is not reachable in BalanceE2EGen (%s)" % variant)
+    behs += [{"policy": "lc", "nohc": True, "steps": b} for b in bs[:3]]
+    directed += len(bs[:3])
     bfile = os.path.join(ctx.work, "e2e.ndjson")
     rfile = os.path.join(ctx.work, "e2e-results.ndjson")
     kit.write_ndjson(bfile, behs)
@@ -207,6 +229,7 @@ def e2e(ctx, variant, found):
     kit.log("[go] e2e: %d behaviours in %.1fs" % (len(behs), time.time() - t0))
     results = {r["id"]: r for r in kit.read_ndjson(rfile)}
     events = []
+    drift = []
     py_bad = {}          # event index (1-based) -> set of verdict names
     stats = {"behaviours": len(behs), "ran": 0, "connections": 0, "rr_exact": 0, "rr_conns": 0, "must_close": 0, "closed_ok": 0,
              "rounds": 0, "stale_rounds": 0}
@@ -227,6 +250,9 @@ def e2e(ctx, variant, found):
         closed_so_far = []
         first = {}
         half = {}          # client id -> "open" | "chc" | "bhc"
+        refusing = [False, False]   # per backend: refuses connections
+        failed = {}        # backend -> dials that failed so far
+        real_before = [0, 0]        # relays per backend after the previous step
         conn_back = {}     # client id -> backend that answered it (real)
         displaced = {}     # client id -> its backend's address was re-added while the relay was up
         for j, (s, o) in enumerate(zip(steps, r["obs"])):
@@ -236,7 +262,7 @@ def e2e(ctx, variant, found):
             closed_so_far = closed_so_far + (o.get("closedNow") or [])
             open_before = [[cid, bk] for cid, bk in sorted(conn_back.items())]
             ev = {"op": op, "open": open_before, "beh": i, "step": j, "a": s.get("a", 0), "t": s.get("t", ""), "f": s.get("f", []),
-                  "id": s.get("id", 0), "side": s.get("side", ""),
+                  "id": s.get("id", 0), "side": s.get("side", ""), "counts": o.get("counts") or [0, 0],
                   "backend": o.get("backend", 0), "established": bool(o.get("established")), "closedsofar": list(closed_so_far)}
             events.append(ev)
             idx = len(events)
@@ -256,7 +282,7 @@ def e2e(ctx, variant, found):
                 got, allowed = o["backend"], s["allowed"]
                 if b["policy"] == "rr":
                     stats["rr_conns"] += 1
-                    if got == s["chosen"]:
+                    if got == (0 if s.get("refused") else s["chosen"]):
                         stats["rr_exact"] += 1
                 sig = None
                 if got != 0 and got not in allowed:
@@ -265,6 +291,13 @@ def e2e(ctx, variant, found):
                     tg = why.get(got) or ("stale-object-mark" if any(why.get(a) == "stale-object-mark" for a in allowed) else None)
                     sig = "selected-not-usable/" + (tg or "unattributed")
                     what = "connection %d went to backend %d, allowed %s" % (s["id"], got, allowed)
+                elif got == 0 and allowed and any(refusing[a - 1] for a in allowed):
+                    # a usable host whose backend refuses connections: the dial fails, the client is closed
+                    stats["failed_dials"] = stats.get("failed_dials", 0) + 1
+                    if s.get("refused"):
+                        failed[s["chosen"]] = failed.get(s["chosen"], 0) + 1
+                    else:
+                        drift.append("e2e behaviour %d step %d: connection closed, model expected backend %d" % (i, j, s["chosen"]))
                 elif got == 0 and allowed:
                     tg = [why[a] for a in allowed if a in why]
                     sig = "closed-with-usable-host/" + (tg[0] if tg else "unattributed")
@@ -276,6 +309,37 @@ def e2e(ctx, variant, found):
                     py_bad.setdefault(idx, set()).add("ConnToUsable")
                     if "view" not in first:
                         first["view"] = (sig, what, j)
+                # every policy is deterministic with the scripted random source: the backend is the model's
+                exp = 0 if s.get("refused") else s["chosen"]
+                stats["exact_conns"] = stats.get("exact_conns", 0) + (1 if got == exp else 0)
+                if got != exp and not sig and len(drift) < 20:
+                    drift.append("e2e behaviour %d step %d (%s): backend %d, model %d" % (i, j, b["policy"], got, exp))
+                # least-connection never prefers the strictly busier of its two samples - busier in relays that really
+                # exist (the backends' own accept/close bookkeeping before this connection)
+                if b["policy"] == "lc" and got != 0 and s["h1a"] != s["h2a"] and got in (s["h1a"], s["h2a"]):
+                    stats["lc_two_sample_picks"] = stats.get("lc_two_sample_picks", 0) + 1
+                    other = s["h2a"] if got == s["h1a"] else s["h1a"]
+                    if real_before[got - 1] > real_before[other - 1] and "lc" not in first:
+                        first["lc"] = ("least-conn-not-minimal/" + ("after-failed-dials" if failed.get(other) else "unattributed"),
+                                       "connection %d: samples backend %d (%d relays) and backend %d (%d relays), least-connection "
+                                       "chose the strictly busier backend %d; %d dials to backend %d had failed before"
+                                       % (s["id"], s["h1a"], real_before[s["h1a"] - 1], s["h2a"], real_before[s["h2a"] - 1], got,
+                                          failed.get(other, 0), other), j)
+            if op == "Refuse":
+                refusing[s["a"] - 1] = bool(s["refusing"])
+            # connection counts of the delivered host objects = relays that exist (quiescent point)
+            if o.get("counts") is not None:
+                stats["count_checks"] = stats.get("count_checks", 0) + 1
+                if o.get("countsOff"):
+                    if op in ("Add", "Remove", "ReplaceAll", "Conn", "CloseConn"):
+                        py_bad.setdefault(idx, set()).add("CountsAreRealConnections")
+                    if "count" not in first:
+                        a = [k for k in range(len(o["counts"])) if o["counts"][k] != o["held"][k]] or [0]
+                        first["count"] = ("conn-count-leak/failed-dial" if failed.get(a[0] + 1) else "conn-count-mismatch/unattributed",
+                                          "ConnCount() per address %s, relays held by the harness %s, relays at the backends %s (after %d ms); "
+                                          "%d dials to backend %d had failed" % (o["counts"], o["held"], o["real"], o.get("settleMs", 0),
+                                                                               failed.get(a[0] + 1, 0), a[0] + 1), j)
+                real_before = o.get("real") or real_before
             # closures: the harness' own bookkeeping says which client is connected to which backend
             if op == "Conn" and o.get("established"):
                 conn_back[s["id"]] = o["backend"]
@@ -321,7 +385,12 @@ def e2e(ctx, variant, found):
             if j < e["len"]:
                 e["len"] = j
                 e["detail"] = "e2e %s policy: %s at step %d of %s" % (b["policy"], what, j, json.dumps(ops_of(steps[:j + 1])))
-                e["art"] = {"kind": "c06-e2e", "policy": b["policy"], "steps": steps[:j + 1], "observed": r["obs"][:j + 1]}
+                e["art"] = {"kind": "c06-e2e", "policy": b["policy"], "nohc": bool(b.get("nohc")), "steps": steps[:j + 1],
+                            "observed": r["obs"][:j + 1]}
+    if drift:
+        print("MODEL-DRIFT module=BalanceE2E %d connections did not go to the backend the model's variant picks, e.g. %s" % (len(drift), drift[0]),
+              flush=True)
+        ctx.notes += ["MODEL-DRIFT " + d for d in drift[:5]]
     if errs > len(behs) * 0.1:
         raise kit.Inconclusive("e2e driver unhealthy: %d of %d behaviours failed to run" % (errs, len(behs)))
     ctx.cov["e2e"] = stats
@@ -332,21 +401,23 @@ def e2e(ctx, variant, found):
     # generous deadline and only reported if the relay is still open then
     generous = 10000 if t else 3000
     for sig in list(found):
-        if not (sig.startswith(("removed-latch-not-closed", "backend-side-not-closed")) and found[sig]["art"]["kind"] == "c06-e2e"):
+        if not (sig.startswith(("removed-latch-not-closed", "backend-side-not-closed", "conn-count-")) and found[sig]["art"]["kind"] == "c06-e2e"):
             continue
         art = found[sig]["art"]
         b1 = os.path.join(ctx.work, "rerun.ndjson")
         r1 = os.path.join(ctx.work, "rerun-results.ndjson")
-        kit.write_ndjson(b1, [{"policy": art["policy"], "steps": art["steps"]}])
-        ctx.harness(["c06-e2e", "-in", b1, "-out", r1, "-naddr", "2", "-long", "1", "-longms", str(generous)], timeout=300)
+        kit.write_ndjson(b1, [{"policy": art["policy"], "nohc": art.get("nohc", False), "steps": art["steps"]}])
+        ctx.harness(["c06-e2e", "-in", b1, "-out", r1, "-naddr", "2", "-long", "1", "-longms", str(generous), "-settlems", str(generous)],
+                    timeout=300)
         rr = kit.read_ndjson(r1)[0]
         last = (rr.get("obs") or [{}])[-1]
-        if rr.get("err") or not (last.get("mustStillOpen") or last.get("backendStillOpen")):
+        if rr.get("err") or not (last.get("mustStillOpen") or last.get("backendStillOpen") or last.get("countsOff")):
             ctx.notes.append("%s: not reproduced with the %d ms deadline (flaky-inconclusive, not reported): %s"
                              % (sig, generous, rr.get("err") or last))
             del found[sig]
         else:
             found[sig]["detail"] = found[sig]["detail"].replace(" 200 ms after", " %d ms after" % last.get("deadlineMs", generous))
+            found[sig]["detail"] = found[sig]["detail"].replace("(after 300 ms)", "(after %d ms)" % generous)
             art["observed_with_generous_deadline"] = rr["obs"]
     # ---- code -> spec
     accepted = None
@@ -396,7 +467,7 @@ def run(ctx):
     # ---- 1. exhaustive
     suffix = "" if t else "_quick"
     first = True
-    for pol in ("rr", "random", "lc"):
+    for pol in (("rr", "random", "lc") if t else ("rr", "lc")):
         r = mc(ctx, "Balance", "MC_Balance_%s%s.cfg" % (pol, suffix), workers=8, timeout=900, coverage=(first and not t))
         first = False
     r = mc(ctx, "Balance", "MC_Balance_rrfair%s.cfg" % suffix, workers=8, timeout=900)
@@ -414,6 +485,12 @@ def run(ctx):
     # anti-vacuity of the half-close strata: a watcher that exits when the client->backend copy ends (or with the
     # first finished direction) must violate EstablishedClosed
     mc(ctx, "BalanceE2E", "MC_BalanceE2E_watcher_chc.cfg", workers=2, timeout=300, expect_violated=["EstablishedClosed"], count=False)
+    # connection counts and dial failures: the real-code variant holds CountsAreRealConnections / LCNotBusierReal, the
+    # variant "a failed dial leaks a count" must violate each of them
+    mc(ctx, "BalanceE2E", "MC_BalanceE2E_counts.cfg", workers=4, timeout=300)
+    mc(ctx, "BalanceE2E", "MC_BalanceE2E_counts_leak_count.cfg", workers=2, timeout=300, expect_violated=["CountsAreRealConnections"], count=False)
+    if t:
+        mc(ctx, "BalanceE2E", "MC_BalanceE2E_counts_leak_lc.cfg", workers=2, timeout=300, expect_violated=["LCNotBusierReal"], count=False)
     if t:
         mc(ctx, "BalanceE2E", "MC_BalanceE2E_watcher_first.cfg", workers=2, timeout=300, expect_violated=["EstablishedClosed"], count=False)
 
@@ -500,8 +577,8 @@ def replay(ctx, rep):
     elif art.get("kind") == "c06-e2e":
         bfile = os.path.join(ctx.work, "one.ndjson")
         rfile = os.path.join(ctx.work, "one-results.ndjson")
-        kit.write_ndjson(bfile, [{"policy": art["policy"], "steps": art["steps"]}])
-        ctx.harness(["c06-e2e", "-in", bfile, "-out", rfile, "-naddr", "2", "-long", "1", "-longms", "5000"], timeout=300)
+        kit.write_ndjson(bfile, [{"policy": art["policy"], "nohc": art.get("nohc", False), "steps": art["steps"]}])
+        ctx.harness(["c06-e2e", "-in", bfile, "-out", rfile, "-naddr", "2", "-long", "1", "-longms", "5000", "-settlems", "3000"], timeout=300)
         r = kit.read_ndjson(rfile)[0]
         ctx.case(key=ops_of(art["steps"]), nontrivial=True)
         ctx.case(key="replay", nontrivial=True)
@@ -509,9 +586,18 @@ def replay(ctx, rep):
         if r.get("err"):
             raise kit.Inconclusive("e2e replay: " + r["err"])
         s, o = art["steps"][-1], r["obs"][-1]
-        if s["op"] == "Conn":
-            if (o["backend"] != 0 and o["backend"] not in s["allowed"]) or (o["backend"] == 0 and s["allowed"]):
-                ctx.violation(rep.get("signature", "replayed"), "connection went to backend %d, allowed %s" % (o["backend"], s["allowed"]), art)
+        sig = rep.get("signature", "replayed")
+        if o.get("countsOff"):
+            ctx.violation(sig, "ConnCount() per address %s, relays held %s, relays at the backends %s" % (o["counts"], o["held"], o["real"]), art)
+        elif s["op"] == "Conn":
+            if (o["backend"] != 0 and o["backend"] not in s["allowed"]) or (o["backend"] == 0 and s["allowed"] and not s.get("refused")):
+                ctx.violation(sig, "connection went to backend %d, allowed %s" % (o["backend"], s["allowed"]), art)
+            elif art["policy"] == "lc" and len(r["obs"]) > 1 and o["backend"] in (s["h1a"], s["h2a"]) and s["h1a"] != s["h2a"]:
+                before = r["obs"][-2]["real"]
+                other = s["h2a"] if o["backend"] == s["h1a"] else s["h1a"]
+                if before[o["backend"] - 1] > before[other - 1]:
+                    ctx.violation(sig, "least-connection chose backend %d (%d relays) over backend %d (%d relays)"
+                                  % (o["backend"], before[o["backend"] - 1], other, before[other - 1]), art)
         elif o.get("mustStillOpen"):
             ctx.violation(rep.get("signature", "replayed"), "connections %s still open after their host was removed" % o["mustStillOpen"], art)
     else:
